@@ -317,6 +317,10 @@ def run(pid, tier, seed, sdir, replay, t0):
     for i, r in enumerate(results):
         for b in r["blocks"]:
             byid[(i if only_part is None else only_part, b.get("id"))] = b
+    harness_bugs = [f for f in fails if str(f.get("mon", "")).startswith("HARNESS.")]
+    if harness_bugs:
+        raise vf.NoVerdict("the harness's own output failed a HARNESS.* monitor (a defect of the machinery, not of the library): %s"
+                           % json.dumps(harness_bugs[:3]))
     viol, knownhits = [], {}
     for f in fails:
         k = match_known(pid, f, known)
